@@ -1,17 +1,146 @@
 #!/usr/bin/env python3
-import json, os, sys
+"""./check <ID> quick|thorough   |   ./check replay <file>   |   ./check all quick"""
+import json, os, re, subprocess, sys
 sys.path.insert(0, os.path.dirname(os.path.abspath(__file__)))
-from core import Report
-import step_check
+from core import Report, Obl, DISCHARGED, FAILED, UNDETERMINED, VERIF, REPO, load_known
+import step_check, custom_check, kani_run
 
-LEVEL_PROOF = "proof"
+STEP_TECH = ("contract-based deductive verification: per-form Hoare contracts {pre} real handler {post == spec/isa.rs}, "
+             "discharged by Kani/CBMC (loop-free harnesses over the full symbolic input domain, bus/cost seam contracts)")
+VERUS_TECH = "contract-based deductive verification: requires/ensures/invariants on functions extracted mechanically from /repo/src, discharged by Verus/Z3"
 
-STEP_TECH = "contract-based deductive verification: per-form Hoare contracts {pre} real handler {post == spec/isa.rs} discharged by Kani/CBMC (loop-free, full symbolic domain, bus/cost seam contracts)"
+# properties with a genuine defect recorded (not repaired) claim `other`: every obligation but the listed ones is proved
+def level_for(prop):
+    has_known = any(k.get("property") == prop and k.get("status") == "known" for k in load_known())
+    if prop == "C14":
+        return "other"
+    return "other" if has_known else "proof"
+
+
+def new_report(prop, tier, tech):
+    return Report(prop, tier, level_for(prop), tech)
 
 
 def check_step_only(prop, tier):
-    rep = Report(prop, tier, LEVEL_PROOF, STEP_TECH)
+    rep = new_report(prop, tier, STEP_TECH)
     step_check.run_step(rep, prop)
+    return rep.finish()
+
+
+def check_step_plus_custom(prop, tier):
+    rep = new_report(prop, tier, STEP_TECH + " + composition lemmas (call;return / entry;RTE) as Kani harnesses over the real functions")
+    step_check.run_step(rep, prop)
+    custom_check.run_custom(rep, prop)
+    if prop in ("C05", "C06"):
+        rep.assumptions.append("arbitrary nesting depth follows from the one-level lemma and the frame clauses (mem_frame) by induction on depth; the induction step is argued in DESIGN.md 5.5, not mechanised")
+    return rep.finish()
+
+
+def check_c07(prop, tier):
+    rep = new_report(prop, tier, "contract on the real Cpu::fetch+Cpu::exec against recording stubs for every dispatch target (Kani/CBMC, all first words x symbolic extension words) + per-form contracts of the STC entries")
+    step_check.run_step(rep, prop)
+    custom_check.run_custom(rep, prop)
+    rep.assumptions.append("total instruction length = words consumed by the dispatcher (proved here) + operand words consumed by the entry (the `pc` clause of each form's contract under C01-C06)")
+    rep.assumptions.append("second-level dispatch inside the entries (mov_b, mov_w, mov_l, add_*, sub_*, bcc, jmp, jsr, bit ops on memory) is exercised by the per-form contracts, which call those entries")
+    return rep.finish()
+
+
+def check_c09(prop, tier):
+    rep = new_report(prop, tier, VERUS_TECH + " (unit bus: Bus::read/Bus::write/ioport helpers, whole-map frame contract, history lemma by induction) + Kani harnesses for the big-endian word/long helpers")
+    custom_check.run_verus_unit(rep, prop, "bus", "Bus::read, Bus::write, Bus::read_ddr, Bus::write_dr, Bus::read_dr, Bus::write_port, Bus::on_write_ddr, Bus::on_write_dr")
+    custom_check.run_custom(rep, prop)
+    rep.assumptions.append("timer register bytes are additionally written by the owning peripheral: update_timer8_0 writes TCNT0/TCSR0 only (C17 frame obligation)")
+    rep.assumptions.append("machine integers are not treated as mathematical: Verus keeps u32/usize with overflow obligations")
+    return rep.finish()
+
+
+def scan_call_sites(rep):
+    """C10: only at an instruction boundary - try_interrupt/interrupt have exactly one call site each"""
+    import glob
+    texts = {}
+    for f in glob.glob(os.path.join(REPO, "src/**/*.rs"), recursive=True):
+        src = open(f).read()
+        i = src.find("#[cfg(test)]\nmod tests")
+        src = src if i < 0 else src[:i]
+        src = src.split("// verification hooks")[0]
+        texts[os.path.relpath(f, REPO)] = src
+    def sites(pat):
+        out = []
+        for f, s in texts.items():
+            for m in re.finditer(pat, s):
+                ln = s.count("\n", 0, m.start()) + 1
+                out.append("%s:%d" % (f, ln))
+        return out
+    a = sites(r"\.try_interrupt\(")
+    o = rep.add(Obl("C10/scan/try_interrupt_only_at_the_loop_head_of_run", "call-graph scan", unit="scan", fn="Cpu::run"))
+    run_src = texts.get("src/cpu.rs", "")
+    ok = len(a) == 1 and a[0].startswith("src/cpu.rs") and re.search(r"// Interrupt\s*\n\s*self\.try_interrupt\(\)\?;\s*\n(?:.*\n){0,6}?\s*let opcode = self\.fetch\(\);", run_src) is not None
+    o.status = DISCHARGED if ok else FAILED
+    o.detail = "call sites: %s" % a
+    b = sites(r"\.interrupt\(")
+    o = rep.add(Obl("C10/scan/interrupt_only_from_try_interrupt", "call-graph scan", unit="scan", fn="Cpu::try_interrupt"))
+    o.status = DISCHARGED if (len(b) == 1 and b[0].startswith("src/cpu/interrupt_controller.rs")) else FAILED
+    o.detail = "call sites: %s" % b
+    c = sites(r"\.request_interrupt\(")
+    o = rep.add(Obl("C10/scan/requests_raised_only_by_peripherals", "call-graph scan", unit="scan", fn="Timer8_0::update_timer8_0"))
+    o.status = DISCHARGED if (c and all(x.startswith("src/modules/") for x in c)) else FAILED
+    o.detail = "call sites: %s" % c
+    d = sites(r"interrupt_requests")
+    o = rep.add(Obl("C10/scan/queue_touched_only_by_request_and_try", "call-graph scan", unit="scan", fn="InterruptController"))
+    o.status = DISCHARGED if all(x.startswith("src/cpu/interrupt_controller.rs") for x in d) else FAILED
+    o.detail = "uses: %s" % d
+
+
+def check_c10(prop, tier):
+    rep = new_report(prop, tier, VERUS_TECH + " (unit irq: request_interrupt/try_interrupt against a queue view; history lemma delivered++pending==requested by induction) + mechanical call-site scan")
+    custom_check.run_verus_unit(rep, prop, "irq", "InterruptController::request_interrupt, Cpu::try_interrupt")
+    scan_call_sites(rep)
+    rep.assumptions.append("Cpu::interrupt is external_body in the Verus unit; its contract (enters through the vector of the number it is given, never touches the queue) is what the Kani harness c06_interrupt_entry proves of the real body (cross-engine assume/guarantee)")
+    rep.assumptions.append("'the program computes the same result as without interrupts' is a corollary of C06's entry;RTE round trip; not separately mechanised")
+    return rep.finish()
+
+
+def check_c13(prop, tier):
+    rep = new_report(prop, tier, VERUS_TECH + " (unit run: loop invariant on the time base of the extracted Cpu::run)")
+    custom_check.run_verus_unit(rep, prop, "run", "Cpu::run")
+    rep.assumptions.append("whole-run determinism is a corollary: every callee is safe Rust without clock or randomness and the host-time statements are proved non-interfering syntactically; stated, not mechanised")
+    rep.assumptions.append("termination is not claimed (guest programs may loop)")
+    rep.assumptions.append("cfg(test) configuration: the control-socket block is compiled out (C18 is not applicable to this technique)")
+    return rep.finish()
+
+
+def check_custom_only(prop, tier):
+    tech = {
+        "C14": "Kani/CBMC contract harnesses on the real trapa/trapa_emulate_mes2 (bus and message seams): loop-free and complete for set_handler and unknown ids; BOUNDED stand-in for the write call",
+        "C16": "Kani/CBMC: inductive representation invariant (latch, direction, pins) per operation on the real Bus + Verus frame obligations of the bus unit",
+        "C17": "Kani/CBMC: per-call contract of the real update_tcr/update_timer8_0 against a tick-by-tick reference; unwinding bound 34 justified by operand width (unwinding assertions on) + partition lemma",
+        "C19": "Kani/CBMC loop-free contract harnesses on the real calc_state_with_addr/calc_state/get_wait_state/get_area_index/check_dram_area over all bus-controller settings",
+    }[prop]
+    rep = new_report(prop, tier, tech)
+    custom_check.run_custom(rep, prop, harness_timeout=1500)
+    if prop == "C16":
+        custom_check.run_verus_unit(rep, prop, "bus", "Bus::write_port, Bus::on_write_ddr, Bus::on_write_dr (frame)")
+        rep.assumptions.append("histories: the invariant is inductive, so it holds after every interleaving of DDR writes, DR writes and pin changes; time stamps are Bus::cpu_state_sum, which only Cpu::run assigns (monotone, C13)")
+        rep.assumptions.append("message text is produced by format!(\"ioport:{:x}:{:x}:{}\") in Bus::send_io_port_value, which is stubbed (never executed under the verifier)")
+    if prop == "C17":
+        rep.assumptions.append("TCR clock selections 4-7 (external clock / cascade) are outside the statement and excluded by precondition")
+        rep.assumptions.append("TCORA != TCORB and both non-zero whenever a counter-clear source is selected (simultaneous events are left open by the hardware manual)")
+        rep.assumptions.append("equivalence for every partition of the elapsed time = per-call contract + partition lemma + tick^(a+b) = tick^b o tick^a (definition of iteration)")
+        rep.bounds.append("loop unwinding bound 34 (complete: charge is a u8 and the divisor is at least 8, so at most 33 counts per call; unwinding assertions on)")
+    if prop == "C14":
+        rep.assumptions.append("the MES convention's GOT-save word at H'FFFD10+4*vector is accepted as part of set_handler's effect")
+    return rep.finish()
+
+
+def check_c15(prop, tier):
+    rep = new_report(prop, tier, "automatic panic/overflow/bounds/unwrap obligations generated by Kani inside /repo/src over every contract harness (full symbolic domains), Verus overflow obligations of the extracted units, plus err-on-unmapped clauses")
+    step_check.run_step(rep, prop)
+    custom_check.run_custom(rep, prop)
+    for unit, fns in (("bus", "Bus::read, Bus::write, ioport helpers"), ("irq", "request_interrupt, try_interrupt"), ("run", "Cpu::run")):
+        custom_check.run_verus_unit(rep, prop, unit, fns)
+    rep.assumptions.append("overflow/shift checks are the overflow-checking build configuration; panic/bounds/unwrap/division checks hold for both configurations")
+    rep.assumptions.append("control-channel lines are parsed inside the socket block of Cpu::run, which is outside this technique (C18 not applicable)")
+    rep.assumptions.append("undefined encodings (neither implemented nor named by the manual) are covered only through the dispatcher harness with stubbed targets")
     return rep.finish()
 
 
@@ -20,9 +149,18 @@ CHECKS = {
     "C02": check_step_only,
     "C03": check_step_only,
     "C04": check_step_only,
-    "C05": check_step_only,
-    "C06": check_step_only,
-    "C08": check_step_only,
+    "C05": check_step_plus_custom,
+    "C06": check_step_plus_custom,
+    "C07": check_c07,
+    "C08": check_step_plus_custom,
+    "C09": check_c09,
+    "C10": check_c10,
+    "C13": check_c13,
+    "C14": check_custom_only,
+    "C15": check_c15,
+    "C16": check_custom_only,
+    "C17": check_custom_only,
+    "C19": check_custom_only,
     "C20": check_step_only,
 }
 
@@ -36,6 +174,8 @@ def main():
         return 0
     prop = sys.argv[1]
     tier = sys.argv[2] if len(sys.argv) > 2 else os.environ.get("VERIF_TIER", "quick")
+    if tier not in ("quick", "thorough"):
+        tier = "quick"
     if prop == "all":
         rc = 0
         for p in sorted(CHECKS):
